@@ -173,7 +173,71 @@ class BvWidth(Contract):
         n = a[0]
         ex.oblige("requires:bv_width:bv-typed", Ty.is_BVT(S.type_of(n)))
         ex.assume(Ty.is_BVT(S.type_of(n)))
-        return Ty.bvw(S.type_of(n))
+        w = Ty.bvw(S.type_of(n))
+        fam = ex.ghost.get("width_family")
+        if fam:
+            # Pw: the proof is instantiated per width of a stated family
+            for c in fam:
+                if ex.decide(w == c):
+                    S.pow2(z3.IntVal(c))      # its value lemma links pow2(<width term>) to 2**c
+                    S.pow2(z3.IntVal(c - 1))
+                    return c
+            raise PathAbort("width-outside-family")
+        return w
+
+
+class IntConst(Contract):
+    """FormulaManager.Int(v) for a Python int v: THE Int constant of value v.
+    (Cache transparency and the rejection of other argument kinds are C04/C14
+    obligations on the real body, contracts/c04_constants.py.)"""
+    qualname = "pysmt.formula.FormulaManager.Int"
+
+    def apply(self, ex, a, kw):
+        v = a[1] if len(a) > 1 else kw["value"]
+        if isinstance(v, PayloadView):
+            v = BI.resolve_payload(self.world, ex, v)
+        k = BI.pykind(self.world, v)
+        ex.oblige("requires:Int:python-int-argument", z3.BoolVal(k == "int"))
+        if k != "int":
+            raise PyRaise(ExcVal("PysmtTypeError", ("Invalid type in constant",)))
+        return self.world.new_node(ex, S.INT_CONSTANT, [], [to_int(v)], check=False)
+
+
+class RealConst(Contract):
+    """FormulaManager.Real(v) for v a Fraction / int / float / (n, d)"""
+    qualname = "pysmt.formula.FormulaManager.Real"
+
+    def apply(self, ex, a, kw):
+        v = a[1] if len(a) > 1 else kw["value"]
+        if isinstance(v, PayloadView):
+            v = BI.resolve_payload(self.world, ex, v)
+        k = BI.pykind(self.world, v)
+        if k in ("int", "Fraction"):
+            r = to_real(v)
+        elif k == "float":
+            r = BI.float_real(v)
+        elif k == "tuple" and len(v) == 2:
+            if ex.decide(to_real(v[1]) == 0):
+                raise PyRaise(ExcVal("ZeroDivisionError"))
+            r = to_real(v[0]) / to_real(v[1])
+        else:
+            ex.oblige("requires:Real:rational-argument", z3.BoolVal(False))
+            raise PyRaise(ExcVal("PysmtTypeError", ("Invalid type in constant",)))
+        return self.world.new_node(ex, S.REAL_CONSTANT, [], [r], check=False)
+
+
+class StrConst(Contract):
+    qualname = "pysmt.formula.FormulaManager.String"
+
+    def apply(self, ex, a, kw):
+        v = a[1] if len(a) > 1 else kw["value"]
+        if isinstance(v, PayloadView):
+            v = BI.resolve_payload(self.world, ex, v)
+        k = BI.pykind(self.world, v)
+        ex.oblige("requires:String:str-argument", z3.BoolVal(k == "str"))
+        if k != "str":
+            raise PyRaise(ExcVal("TypeError", ("Invalid type in constant",)))
+        return self.world.new_node(ex, S.STR_CONSTANT, [], [to_str(v)], check=False)
 
 
 class GetEnv(Contract):
@@ -187,7 +251,8 @@ class GetEnv(Contract):
 def install_core(world):
     for c in (CreateNode(), GetType("pysmt.type_checker.SimpleTypeChecker.get_type"),
               GetType("pysmt.type_checker.SimpleTypeChecker.walk"),
-              FreeVars(), IsConstantNoArgs(), BvWidth(), GetEnv()):
+              GetType("pysmt.type_checker.SimpleTypeChecker::walk"),
+              FreeVars(), IsConstantNoArgs(), BvWidth(), GetEnv(), IntConst(), RealConst(), StrConst()):
         c.world = world
         world.contracts[c.qualname] = c
 
